@@ -96,6 +96,11 @@ def entropy_dm(dm):
     return vn_entropy(np.where(w > 0, w, 0.0)) if np.any(w > 0) else 0.0
 
 
+class GenError(Exception):
+    """the library rejected something the *generator* asked for (building an operator, a bra state, ...):
+    counted, never a violation of C07"""
+
+
 class Case:
     """one generated (model, state) pair with its dense data"""
 
@@ -132,6 +137,14 @@ class Case:
 
     # -------------------------------------------------------------------------- state generator
     def _state(self, cplx, other=False):
+        try:
+            return self._state_raw(cplx, other)
+        except GenError:
+            raise
+        except Exception as e:
+            raise GenError(f"state:{type(e).__name__}") from e
+
+    def _state_raw(self, cplx, other=False):
         rng = self.rng
         legs = 3 if self.form == "mps" else 4
         cls = Mps if self.form == "mps" else MpDm
@@ -444,7 +457,10 @@ class Checker:
         ops, style = self.op_list()
         mpos = []
         for o in ops:
-            mpos.append(o if isinstance(o, Mpo) else Mpo(c.model, o))
+            try:
+                mpos.append(o if isinstance(o, Mpo) else Mpo(c.model, o))
+            except Exception as e:
+                raise GenError(f"mpo:{type(e).__name__}") from e
         use_bra = rng.random() < 0.35
         X = None
         Xarrs = None
@@ -776,7 +792,7 @@ def search(run, rng, quick):
     while time.time() - t0 < budget:
         try:
             case = Case(rng, quick)
-        except RuntimeError as e:
+        except (RuntimeError, GenError) as e:
             run.count("rejected:state-generation")
             continue
         ncase += 1
@@ -793,6 +809,8 @@ def search(run, rng, quick):
         for st in steps:
             try:
                 st()
+            except GenError as e:
+                run.count(f"rejected:generator:{e}")
             except Exception as e:
                 # the property promises a value for every input generated here
                 ck.fail(f"{st.__name__}:{case.form}:raises:{type(e).__name__}", dict(error=repr(e)[:300]))
